@@ -146,7 +146,8 @@ public:
       auto key_str   = UrlDecode(common::StringUtil::Trim(key), err);
       auto value_str = UrlDecode(common::StringUtil::Trim(value), err);
 
-      if (err == false && IsValidKey(key_str) && IsValidValue(value_str))
+      if (err == false && IsValidKey(key_str) && IsValidValue(value_str) &&
+          IsPrintableString(metadata))
       {
         if (!metadata.empty())
         {
